@@ -16,7 +16,7 @@ API
     geo.locate(pts, guard=1e-6)        # -> list of dict(valid, why, path, outside, label, name[, detail])
     geo.locate_labels(pts, guard=1e-6) # -> (labels list[str|None], valid ndarray[bool], why list[str])
 
-``path`` is [(universe_name, volume_label), ...] from level 0 to the deepest
+``path`` is [(universe_name, volume_label, local_volume_index), ...] from level 0 to the deepest
 level reached.  ``volume_label`` / ``label`` is what the C++ code prints with
 ``to_string(OrangeParams::id_to_label(VolumeId))``: the JSON label string is
 split at its LAST '@' into (name, ext); an empty ext is replaced by the
@@ -349,9 +349,11 @@ class OracleGeo:
             groups = self._array_cells(u, idx, P, gabs, r)
         else:
             groups = self._unit_volumes(uid, u, idx, P, gabs, r)
-        for sel, label, name, daughter in groups:
+        for sel, label, name, daughter, li in groups:
             for i in idx[sel]:
-                r["path"][i].append((u["name"], label))
+                # third element: local volume index (two volumes of one universe may carry the
+                # same label, e.g. the same daughter placed twice)
+                r["path"][i].append((u["name"], label, int(li)))
                 r["name"][i] = name
             if daughter is not None:
                 d_uid, R, t = daughter
@@ -402,9 +404,9 @@ class OracleGeo:
                     r["outside"][idx[sel]] = True
                 else:
                     self._fail(r, idx[sel], "daughter-exterior")
-                groups.append((sel, v["label"], v["name"], None))
+                groups.append((sel, v["label"], v["name"], None, li))
                 continue
-            groups.append((sel, v["label"], v["name"], v["daughter"]))
+            groups.append((sel, v["label"], v["name"], v["daughter"], li))
         return groups
 
     def _array_cells(self, u, idx, P, gabs, r):
@@ -428,7 +430,7 @@ class OracleGeo:
             i, rem = divmod(int(c), ny * nz)
             jj, k = divmod(rem, nz)
             name = "{%d,%d,%d}" % (i, jj, k)
-            groups.append((sel, name + "@" + u["name"], name, u["daughters"][c]))
+            groups.append((sel, name + "@" + u["name"], name, u["daughters"][c], c))
         return groups
 
 
